@@ -191,6 +191,7 @@ static std::string parse_all(const std::string &in)
     }
     if (!no_delete)
         delete cu;
+    SX.clear(); // the table holds the address of every node: drop it, so that a node its owner did not delete is unreachable (LEAK)
     return out;
 }
 
